@@ -823,6 +823,43 @@ var atomSuccTable = map[string]string{
 	"NtLoop": "M > 0 loops: their first iteration follows", "NtLazyloop": "M > 0 loops: their first iteration follows", "NtPosLook": "a lookahead is evaluated at the loop's end", "NtEmpty": "matches nothing: look at what follows",
 }
 
+// atomUpTable: parent kinds canBeMadeAtomic may leave upwards when the successor was optional.
+var atomUpTable = map[string]string{
+	"NtAtomic":      "what follows an atomic group follows its content",
+	"NtAlternate":   "what follows an alternation follows each branch",
+	"NtCapture":     "what follows a capture group follows its content",
+	"NtConcatenate": "the next sibling follows; at the end the walk continues with the parent",
+}
+
+// isParentVar: e is a local variable every assignment of which is `<x>.Parent`.
+func isParentVar(info *types.Info, fd *ast.FuncDecl, e ast.Expr) bool {
+	id, ok := ast.Unparen(e).(*ast.Ident)
+	if !ok {
+		return false
+	}
+	obj := info.ObjectOf(id)
+	n, okAll := 0, true
+	ast.Inspect(fd.Body, func(x ast.Node) bool {
+		as, ok := x.(*ast.AssignStmt)
+		if !ok {
+			return true
+		}
+		for i, l := range as.Lhs {
+			lid, ok := l.(*ast.Ident)
+			if !ok || info.ObjectOf(lid) != obj || i >= len(as.Rhs) {
+				continue
+			}
+			n++
+			sel, ok := ast.Unparen(as.Rhs[i]).(*ast.SelectorExpr)
+			if !ok || sel.Sel.Name != "Parent" {
+				okAll = false
+			}
+		}
+		return true
+	})
+	return n > 0 && okAll
+}
+
 func RAtomSucc(c *core.Ctx) {
 	c.Rule("R-ATOMSUCC", "every node kind that canBeMadeAtomic tests its successor (or the path to it) against is one for which giving characters back cannot help; in particular \\B / ECMAScript \\B are not accepted: after a greedy run of non-word characters \\B fails at the run's end when a word character follows and holds one character earlier", 10)
 	p := c.P
@@ -868,6 +905,28 @@ func RAtomSucc(c *core.Ctx) {
 			}
 		case *ast.SwitchStmt:
 			if b.Tag != nil && core.FieldOf(info, b.Tag) == tField {
+				// the walk UP (switch on the kind of a node obtained through .Parent) has its own table:
+				// what may be left at its end without meeting anything that could take characters back
+				if sel, ok := ast.Unparen(b.Tag).(*ast.SelectorExpr); ok && isParentVar(info, fd, sel.X) {
+					for _, st := range b.Body.List {
+						for _, e := range st.(*ast.CaseClause).List {
+							id, ok := ast.Unparen(e).(*ast.Ident)
+							if !ok {
+								continue
+							}
+							seen["up:"+id.Name]++
+							key := fmt.Sprintf("canBeMadeAtomic / walking up through a parent of kind %s", id.Name)
+							if reason, ok := atomUpTable[id.Name]; ok {
+								c.OK(key, e.Pos(), "%s", reason)
+							} else if id.Name == "NtLoop" || id.Name == "NtLazyloop" {
+								c.Bad(key, e.Pos(), "leaving a loop body at its end can also lead back to the start of the body (the next iteration), which is not compared with the loop being made atomic")
+							} else {
+								c.Unknown(key, e.Pos(), "no soundness argument recorded for walking up through this kind")
+							}
+						}
+					}
+					return true
+				}
 				for _, st := range b.Body.List {
 					for _, e := range st.(*ast.CaseClause).List {
 						check(e, e.Pos())
